@@ -37,12 +37,12 @@ var errC15Close = errors.New("c15 connection closed")
 
 // peer frame kinds
 const (
-	c15KStream   = iota // STREAM, 1 byte at offset 0, no FIN
-	c15KFin             // STREAM, 1 byte at offset 0, FIN
-	c15KReset           // RESET_STREAM, final size 1
-	c15KStop            // STOP_SENDING
-	c15KMaxData         // MAX_STREAM_DATA
-	c15KBlocked         // STREAM_DATA_BLOCKED
+	c15KStream  = iota // STREAM, 1 byte at offset 0, no FIN
+	c15KFin            // STREAM, 1 byte at offset 0, FIN
+	c15KReset          // RESET_STREAM, final size 1
+	c15KStop           // STOP_SENDING
+	c15KMaxData        // MAX_STREAM_DATA
+	c15KBlocked        // STREAM_DATA_BLOCKED
 	c15NKinds
 )
 
@@ -58,19 +58,19 @@ func c15KindIsRecv(k int) bool {
 // c15Cfg selects the alphabet of one part.
 type c15Cfg struct {
 	pers       protocol.Perspective
-	lim        [2]int    // our incoming stream limits (bidi, uni)
-	frameMax   [4]int    // highest stream number named by peer frames, per class (0: none)
-	frameKinds [4][]int  // peer frame kinds offered per class
-	maxStreams [2][]int  // MAX_STREAMS values the peer may send, per type
-	tparams    bool      // HandleTransportParameters(tp) offered
-	tp         [2]int    // initial_max_streams_{bidi,uni} in the transport parameters
-	open       [2]bool   // OpenStream / OpenUniStream offered
-	accept     [2]bool   // AcceptStream / AcceptUniStream offered
-	acceptNone bool      // Accept also offered when the model says nothing is queued
-	app        bool      // application-level stream calls (Read, CancelRead, Close, CancelWrite, flush)
-	direct     bool      // completion = DeleteStream called directly (also for not-yet-accepted streams)
-	reset0rtt  bool      // ResetFor0RTT (once) + UseResetMaps offered
-	closeErr   bool      // CloseWithError offered
+	lim        [2]int   // our incoming stream limits (bidi, uni)
+	frameMax   [4]int   // highest stream number named by peer frames, per class (0: none)
+	frameKinds [4][]int // peer frame kinds offered per class
+	maxStreams [2][]int // MAX_STREAMS values the peer may send, per type
+	tparams    bool     // HandleTransportParameters(tp) offered
+	tp         [2]int   // initial_max_streams_{bidi,uni} in the transport parameters
+	open       [2]bool  // OpenStream / OpenUniStream offered
+	accept     [2]bool  // AcceptStream / AcceptUniStream offered
+	acceptNone bool     // Accept also offered when the model says nothing is queued
+	app        bool     // application-level stream calls (Read, CancelRead, Close, CancelWrite, flush)
+	direct     bool     // completion = DeleteStream called directly (also for not-yet-accepted streams)
+	reset0rtt  bool     // ResetFor0RTT (once) + UseResetMaps offered
+	closeErr   bool     // CloseWithError offered
 	depth      int
 }
 
@@ -416,7 +416,7 @@ func (in *c15Inst) apply(op explore.Op) *explore.Fail {
 			in.tag("not-yet-accepted")
 		}
 		in.sender.onStreamCompleted(s.id)
-		// the model marks it completed: fullyDone() is forced through the direct flag
+		// the model marks both halves as finished, so that fullyDone() holds from now on
 		s.fin, s.cancR, s.closed, s.pendFIN, s.pendRST = true, true, true, false, false
 	case "read", "cancelr", "close", "cancelw", "flush":
 		return in.applyApp(op.N, protocol.StreamID(op.A))
@@ -879,4 +879,3 @@ func (in *c15Inst) Key() string {
 	}
 	return sb.String()
 }
-
